@@ -553,7 +553,9 @@ XalanTransformer::compileStylesheet(
             const XalanCompiledStylesheet*&     theCompiledStylesheet)
 {
     // Clear the error message.
-    m_errorMessage.resize(1, '\0');
+    // resize() would keep the first character of a longer message...
+    m_errorMessage.clear();
+    m_errorMessage.push_back(0);
 
     // Store error messages from problem listener.
     XalanDOMString  theErrorMessage(m_memoryManager);
@@ -1243,7 +1245,9 @@ XalanTransformer::doTransform(
     int     theResult = 0;
 
     // Clear the error message.
-    m_errorMessage.resize(1, '\0');
+    // resize() would keep the first character of a longer message...
+    m_errorMessage.clear();
+    m_errorMessage.push_back(0);
 
     // Store error messages from problem listener.
     XalanDOMString  theErrorMessage(m_memoryManager);
